@@ -76,6 +76,26 @@ func genTopo(r *Rng, allowHoles bool) *simTopo {
 	return t
 }
 
+// topoHasHoles: an unowned slot range, or a node of the slot table without a pool
+func topoHasHoles(t *simTopo) bool {
+	next := 0
+	for _, rg := range t.ranges {
+		if rg.lo != next {
+			return true
+		}
+		next = rg.hi + 1
+		if !t.hasPool(rg.master) {
+			return true
+		}
+		for _, a := range rg.slaves {
+			if !t.hasPool(a) {
+				return true
+			}
+		}
+	}
+	return next != 16384
+}
+
 type simGenState struct {
 	run    *simRun
 	rng    *Rng
@@ -319,9 +339,17 @@ func (v *simView) Gen(rng *Rng, i int) string {
 			}
 		case x < 94:
 			g.emit(fmt.Sprintf("x %d", rng.Intn(nc)))
-		case x < 98:
+		case x < 97:
 			if cfg.timeout {
 				g.emit("E")
+			}
+		case x < 98:
+			// (only in topologies without other reasons to reject a request: with an unowned range AND a removed
+			// node one request can fail in two ways and which one the map iteration hits first is not observable)
+			if rng.Chance(1, 3) && len(topo.pools) > 0 && !topoHasHoles(topo) && cfg.conns == 1 { // (and one connection per node, as for every unroutable slot)
+				g.emit(fmt.Sprintf("K %d", rng.Intn(len(topo.pools))))
+			} else {
+				g.emit("T")
 			}
 		default:
 			g.emit("T")
